@@ -97,6 +97,14 @@ EDITS = {
    "	slices.SortFunc(c.intersectList, func(a, b *IntersectNode) int {\n		if a.pt.Y != b.pt.Y {\n			if a.pt.Y > b.pt.Y {\n				return -1\n			}\n			return 1\n		}\n		if a.pt.X == b.pt.X {\n			return 0\n		}\n		if a.pt.X < b.pt.X {\n			return -1\n		}\n		return 1\n	})")],
  "E57-minima-sort-as-SortFunc-cmp": [("clipper_base.go", "		sort.Slice(c.minimaList, func(i, j int) bool {\n			return c.minimaList[i].Vertex.pt.Y > c.minimaList[j].Vertex.pt.Y\n		})",
    "		slices.SortStableFunc(c.minimaList, func(a, b *LocalMinima) int {\n			return cmp.Compare(b.Vertex.pt.Y, a.Vertex.pt.Y)\n		})"), ("clipper_base.go", "import (\n	\"fmt\"", "import (\n	\"cmp\"\n	\"fmt\"")],
+ # functions renamed everywhere ("@sed", {old: new}): whole-word replacement in every non-test .go file
+ "E58-rename-func-doSplitOp": [("@sed", {"doSplitOp": "splitSelfTouchingRing"})],
+ "E59-rename-funcs-helpers": [("@sed", {"isHotEdge": "producesOutput", "getPrevHotEdge": "prevOutputEdge", "updateEdgeIntoAEL": "advanceEdge"})],
+ "E60-rename-funcs-offset-rect": [("@sed", {"offsetPolygon": "offsetClosedPath", "tidyEdgePair": "rejoinEdgePair", "minkowskiInternal": "minkowskiQuads", "multiplyUInt64": "mul64x64"})],
+ "E61-rename-funcs-wind": [("@sed", {"setWindCountForClosedPathEdge": "setClosedWindCount", "intersectEdges": "crossEdges", "isContributingClosed": "contributesClosed"})],
+ "E62-rename-field-windCount2": [("@sed", {"windCount2": "otherSetWind"})],
+ "E63-rename-fields-offset-engine": [("@sed", {"pathOut": "scratchPath", "isSortedMinimaList": "minimaSorted", "joinWith": "joinedTo", "horzJoinList": "pendingHorzJoins", "groupDelta": "signedDelta"})],
+ "E64-rename-fields-int128-outpt2": [("@sed", {"ownerIdx": "ringIdx", "leftToRight": "ltr", "stepSin": "arcSin", "stepsPerRad": "arcStepsPerRad"})],
  "E18-comment-and-blank-lines": [("rect_clip.go", "func (r *RectClip64) getNextLocation(path Path64, loc *Location, i *int, highI int) {\n	switch *loc {", "// getNextLocation advances i to the next vertex that leaves the current location.\nfunc (r *RectClip64) getNextLocation(path Path64, loc *Location, i *int, highI int) {\n\n	switch *loc {")],
 }
 def main():
@@ -106,6 +114,22 @@ def main():
         d = tempfile.mkdtemp(prefix="eq.")
         a, b = os.path.join(d, "a"), os.path.join(d, "b")
         os.makedirs(a); os.makedirs(b)
+        if edits and edits[0][0] == "@sed":
+            import glob
+            files = sorted(os.path.basename(p) for p in glob.glob("/repo/*.go") if not p.endswith("_test.go"))
+            for f in files:
+                shutil.copy("/repo/" + f, a); shutil.copy("/repo/" + f, b)
+            for f in files:
+                s = open(os.path.join(b, f)).read()
+                for o, n in edits[0][1].items():
+                    s = re.sub(r"\b%s\b" % re.escape(o), n, s)
+                open(os.path.join(b, f), "w").write(s)
+            subprocess.run(["gofmt", "-w"] + [os.path.join(b, f) for f in files])
+            p = subprocess.run(["diff", "-u", "-r", "a", "b"], cwd=d, capture_output=True, text=True)
+            open(os.path.join(out, name + ".patch"), "w").write(p.stdout)
+            print(name, "ok")
+            shutil.rmtree(d)
+            continue
         files = sorted(set((e[1] if e[0] in ("@rename", "@rename-text") else e[0]) for e in edits))
         for f in files:
             shutil.copy("/repo/" + f, a); shutil.copy("/repo/" + f, b)
